@@ -295,7 +295,7 @@ theorem bulkDomain_delete : BulkDomain s6 qDel := by
     SECOND disjunct (`update_not_fullPlan`, `copy_not_fullPlan`, `delete_not_fullPlan` exclude the first) -/
 theorem ops_inDomain : AllInDomain likeFn fnFam ops [] := by
   simp only [ops, AllInDomain, Op.InDomain, step1, step2, step3, step4, step5, step6, true_and, and_true]
-  exact ⟨Or.inr bulkDomain_update, Or.inr copyDomain_copy, Or.inr bulkDomain_delete⟩
+  exact ⟨Or.inr (Or.inl bulkDomain_update), Or.inr (Or.inl copyDomain_copy), Or.inr (Or.inl bulkDomain_delete)⟩
 
 /-! ## 6. the sort domain and the no-explicit-nil condition of the read -/
 
